@@ -30,8 +30,9 @@ def utpm2base_and_dirs(u):
     D -= 1
     shp = u.data.shape[2:]
 
-    x = numpy.zeros(shp)
-    V = numpy.zeros(shp+(P,D))
+    dtype = numpy.result_type(u.data.dtype, float)   # complex coefficients stay complex
+    x = numpy.zeros(shp, dtype=dtype)
+    V = numpy.zeros(shp+(P,D), dtype=dtype)
 
     x[...] = u.data[0,0,...]
     V[...] = u.data[1:,...].transpose( tuple(2+numpy.arange(len(shp))) + (1,0))
@@ -55,7 +56,7 @@ def base_and_dirs2utpm(x,V):
     NVshp = len(Vshp)
     numpy.testing.assert_array_equal(xshp, Vshp[:-2], err_msg = 'x.shape does not match V.shape')
 
-    tc = numpy.zeros((D+1,P) + xshp)
+    tc = numpy.zeros((D+1,P) + xshp, dtype=numpy.result_type(x.dtype, V.dtype, float))
     for p in range(P):
         tc[0,p,...] = x[...]
 
